@@ -215,7 +215,7 @@ Section Entry.
     Ok [mk_array point (point && (c =? 2) && dim2) n c key ws].
   Proof.
     unfold entry_arrays. rewrite find_ax_first. cbn [Z.to_nat nth ndim length Z.of_nat].
-    rewrite Z.div_mul by lia. cbn. rewrite andb_false_r. reflexivity.
+    rewrite Z.div_mul by lia. reflexivity.
   Qed.
 
   (* k x (c*n) block, k not a multiple of n: row i is vector i *)
@@ -541,7 +541,8 @@ Proof.
   unfold vti_arrays, point_arrays, cell_arrays, point_vecs, cell_vecs. cbn [filter].
   unfold is_kind, vshape. cbn [fst snd]. rewrite Ecl. cbn [map collect].
   unfold vkey, vshape, vwords. cbn [fst snd].
-  rewrite (entry_block_rows true (dim g =? 2) (nnodes g) key ws Hp k c Hk Hkm). now rewrite app_nil_r.
+  rewrite (entry_block_rows true (dim g =? 2) (nnodes g) key ws Hp k c Hk Hkm). cbn [collect map].
+  now rewrite !app_nil_r.
 Qed.
 
 Example block_point_arrays_witness :   (* the former failing input: hypotheses hold, total size 36 = 9 * nel *)
